@@ -6,7 +6,7 @@
  * (in-order, synchronous delivery = one legal schedule), and the file model.
  * Each harness starts from an ARBITRARY writer state satisfying the invariant W (hence every history of earlier calls)
  * and checks the postconditions and W again.  Bound: key length <= VG_KMAX (buffers are real). */
-#include "/repo/mtbl/writer.c"
+#include "mtbl/writer.c"
 #include "spec/ghost.h"
 /* Vector growth is excluded from this capped harness (the buffers are created large enough): realloc is a cut point.
  * If a run reaches it the auxiliary obligation below fails (=> undecided, never silent).  Growth itself: group vec_grow. */
